@@ -350,6 +350,17 @@ E("rowgroupby", 1, lambda S: etl.rowgroupby(S[0], "k"), "nonview",
 # ---- dict / column round trips -----------------------------------------------------------------
 E("fromdicts_header", 1, lambda S: etl.fromdicts(list(etl.dicts(S[0])), header=list(H)), "")
 E("fromdicts_sample", 1, lambda S: etl.fromdicts(list(etl.dicts(S[0]))), "dynhdr", empty=[()])
+class _IterOnly(object):
+    def __init__(self, items):
+        self._items = items
+
+    def __iter__(self):
+        return iter(self._items)
+
+
+# re-iterable containers of dicts that are neither list nor tuple nor generator
+E("fromdicts_iteronly_header", 1, lambda S: etl.fromdicts(_IterOnly(list(etl.dicts(S[0]))), header=list(H)), "")
+E("fromdicts_dictsview_header", 1, lambda S: etl.fromdicts(etl.dicts(S[0]), header=tuple(H)), "")
 E("fromdicts_gen_header", 1, lambda S: etl.fromdicts((d for d in list(etl.dicts(S[0]))), header=list(H)), "oneshot")
 E("fromdicts_gen", 1, lambda S: etl.fromdicts((d for d in list(etl.dicts(S[0])))), "oneshot dynhdr", empty=[()])
 E("fromcolumns", 1, lambda S: etl.fromcolumns([list(etl.values(S[0], f)) for f in H], header=list(H)), "")
